@@ -145,7 +145,7 @@ public:
       T newt = T();
 
       if(n > 0)
-         data.insert(data.begin() + i - 1, n, newt);
+         data.insert(data.begin() + i, n, newt);
    }
 
    /// insert \p n elements with value \p t before \p i 'the element.
@@ -153,7 +153,7 @@ public:
    {
       if(n > 0)
       {
-         data.insert(data.begin() + i - 1, n, t);
+         data.insert(data.begin() + i, n, t);
       }
    }
 
@@ -162,7 +162,7 @@ public:
    {
       if(n > 0)
       {
-         data.insert(data.begin() + i - 1, t, t + n);
+         data.insert(data.begin() + i, t, t + n);
       }
    }
 
@@ -171,7 +171,7 @@ public:
    {
       if(t.size())
       {
-         data.insert(data.begin() + i - 1, t.data.begin(), t.data.end());
+         data.insert(data.begin() + i, t.data.begin(), t.data.end());
       }
    }
 
